@@ -230,6 +230,8 @@ def render(S, tail_remarks=False, r=None):
             out.append("TYPE %s = SELECT (%s);" % (t["name"], ", ".join(t["members"])))
         elif t["kind"] == "aggr":
             out.append("TYPE %s = %s [%d:%s] OF %s;" % (t["name"], t["agg"], t["lo"], "?" if t["hi"] is None else t["hi"], t["elem"]))
+        elif t["kind"] == "ref":        # TYPE n = other_defined_type;
+            out.append("TYPE %s = %s;" % (t["name"], t["target"]))
         out.append("END_TYPE;" + ("  -- tail remark %s" % t["name"] if tail_remarks else ""))
         out.append("")
     for e in S.entities:
